@@ -173,3 +173,40 @@ CHECKS["C18"] = dict(
     design="5 C18", note="Trusted: TLC, the rule table (spec/Cli.tla MustReject / Either, mirrored in checks/c18.py and cross-checked), lib/fakeatlas.py as "
                          "network witness, strace. The verdict comes only from the real CLI's exit status, files and CONNECT log.",
     technique="TLC over all 2^13 switch combinations against a documentation-derived rule table; exhaustive replay on the real CLI with file-system snapshot and fake-endpoint witness; strace trace validation")
+
+ATLAS_NOTE = ("Trusted: TLC, lib/fakeatlas.py (a scripted Atlas API reached by the unmodified binary through HTTPS_PROXY + SSL_CERT_FILE; it records "
+              "CONNECT targets, request heads and a listing of the run's private TMPDIR at every request, and verifies digest responses), the overlay "
+              "in-process driver for the library level, lib/atlasreplay.py. mongodb+srv resolution needs DNS and is not exercised. The verdict comes only "
+              "from what the real code sent, wrote, printed and left behind; a trace the specification rejects while the predicate holds is SPEC-DRIFT.")
+
+CHECKS["C16"] = dict(
+    level="model_checking",
+    text="spec/Atlas.tla: one action per HTTP exchange (unauthenticated round, digest response, transport retry, response) and per file-system step "
+         "(temp file, body copy, registration, per-file output and redaction, clean-up); TLC checks RequestsExact, OutIndexIsHost, SuccessIsComplete "
+         "for 1..5 hosts. The fault-free terminal states are replayed through the unmodified CLI behind the fake endpoint and through the library with "
+         "many concretisations (ports, empty / multi-member archives, window given / default, five flag sets incl. --encrypt): CONNECT only to "
+         "cloud.mongodb.com:443, one authenticated request per host in connection-string order, project / host / window in every URL, bytes stored "
+         "verbatim, <out>.<i> byte-identical to the CLI's redaction of archive i; request histories validated against the spec (AtlasTrace).",
+    design="5 C16", note=ATLAS_NOTE,
+    technique="TLA+ spec of the download / redaction loop model-checked by TLC; replay on the unmodified CLI behind a fake Atlas endpoint; request-log and output judges; trace validation")
+
+CHECKS["C17"] = dict(
+    level="model_checking",
+    text="spec/Atlas.tla with the fault environment: TLC checks NoTempAtExit and termination for 1..4 hosts x failing position x fault kind (HTTP "
+         "status, reset before headers, body cut after j bytes, payload not gzip, over-long line, damaged archive, output path that cannot be "
+         "created) + success, at CLI and library level. Every terminal state is replayed (several concretisations; thorough: every cut offset) with a "
+         "private TMPDIR that is listed at every request - while the client is blocked - and after the process has gone; verdict: the directory is "
+         "empty at the end; the (request, temp-count) histories are validated as Atlas behaviours by TLC (AtlasTrace).",
+    design="5 C17", note=ATLAS_NOTE,
+    technique="TLC-enumerated fault positions of the Atlas spec replayed on the unmodified CLI and the library against a fake endpoint; temp-directory snapshots; trace validation")
+
+CHECKS["C20"] = dict(
+    level="model_checking",
+    text="spec/Atlas.tla records for every request whether credential material is attached; TLC checks NoChallengeNoCredentials for five server "
+         "behaviours (digest, no challenge, Basic, unparseable Digest challenge, 401 after a correct response) x fault positions. Every terminal state "
+         "is replayed through the unmodified CLI (key by flag / environment / mixed; keys with URL- / base64-sensitive and non-ASCII characters) and "
+         "the library; every artefact (request heads, CONNECT, stdout, stderr, output / temp / other files, returned errors) is scanned for the key "
+         "verbatim and in nine encodings incl. Basic; Authorization must be a digest response that verifies against the key, and absent without a "
+         "Digest challenge.",
+    design="5 C20", note=ATLAS_NOTE,
+    technique="TLC-enumerated server behaviours x faults replayed on the unmodified CLI / library; whole-artefact scan for the key in several encodings; server-side digest verification")
